@@ -535,6 +535,29 @@ def part_gaps(ck, total):
 
 
 # ------------------------------------------------------------------------------------------------------------
+# pairs (lib/verif/c02pairs.py): the verdict for a text must not depend on what the same process parsed before
+def part_pairs(ck, total):
+    from verif import c02pairs as cp
+    n = len(cp.PAIR_TEXTS)
+    items = [(None, j) for j in range(n)] + [(i, j) for i in range(n) for j in range(n)]
+    res = {}
+    for i, j, o in pmap(cp.pairs_job, items, chunksize=4):
+        res[(i, j)] = o
+    bad = 0
+    for j in range(n):
+        base = res[(None, j)]
+        for i in range(n):
+            got = res[(i, j)]
+            if got[:4] != base[:4]:
+                bad += 1
+                ck.violation('C02:depends-on-earlier-parse', 'after parsing %r in the same process, %r gives %s %s; alone it gives %s %s'
+                             % (cp.PAIR_TEXTS[i], cp.PAIR_TEXTS[j], got[1], (got[3] + got[4])[:3], base[1], (base[3] + base[4])[:3]),
+                             {'text': cp.PAIR_TEXTS[j], 'before': cp.PAIR_TEXTS[i], 'origin': 'pairs', 'mode': 'pair'})
+    ck.part('pairs', texts=n, ordered_pairs=n * n, fresh_interpreters=len(items), deviating=bad)
+    total.add('evaluations', len(items))
+
+
+# ------------------------------------------------------------------------------------------------------------
 def report(ck, total):
     """violations shortest-first; every reported case is re-evaluated here (a different process than the worker)"""
     for key in sorted(total.viol, key=lambda k: (total.viol[k][1][0][0][0] if total.viol[k][1] else 0, k)):
@@ -546,7 +569,14 @@ def report(ck, total):
             else:
                 again = evaluate(text, False).viol
             if key not in [k for k, _ in again]:
-                raise InternalError('violation %s on %r did not reproduce in the parent process' % (key, text))
+                # not reproduced here: the verdict depends on what the worker had parsed before (or the check is broken: either way
+                # it must not pass silently).  A brand-new interpreter gives the reference outcome for the text alone.
+                from verif import c02pairs as cp
+                alone = cp.fresh_outcome([text])
+                ck.violation('C02:depends-on-earlier-parse:' + key.split(':', 1)[1],
+                             'a worker process that had parsed other texts before reports %s for %r (%s); this process does not; a brand-new '
+                             'interpreter gives %s %s' % (key, text[:200], what, alone[1], alone[3]), {'text': text, 'origin': origin, 'mode': mode})
+                continue
             ck.violation(key, '%s -- input %r (%s)' % (what, text[:200], origin), {'text': text, 'origin': origin, 'mode': mode})
 
 
@@ -564,6 +594,8 @@ def main():
         N, N2 = part_tokens(ck, total)
     if ck.want('gaps'):
         part_gaps(ck, total)
+    if ck.want('pairs'):
+        part_pairs(ck, total)
     report(ck, total)
     if UNMET and not ck.n_viol:
         ck.internal('vacuity/self-check failed: ' + '; '.join(UNMET))
